@@ -10,10 +10,10 @@ use concordium_base::{
     curve_arithmetic::{Curve, Value},
     id::constants::{ArCurve, BlsG2},
     pedersen_commitment::{Commitment, CommitmentKey, Randomness as PedRandomness},
-    random_oracle::{RandomOracle, TranscriptProtocolV1},
+    random_oracle::{Challenge, RandomOracle, TranscriptProtocol, TranscriptProtocolV1},
     sigma_protocols::{
         com_ineq::{prove_com_ineq, verify_com_ineq, Response as IneqResponse},
-        common::{prove, verify, AndAdapter, SigmaProof},
+        common::{prove, verify, AndAdapter, ReplicateAdapter, SigmaProof, SigmaProtocol},
         dlog::Response as DlogResponse,
         verif::dlog_equal,
     },
@@ -683,6 +683,91 @@ fn t_and(data: &[u8], ctx: &mut Ctx) -> CheckResult {
 
 // ---- ReplicateAdapter ------------------------------------------------------------------------
 
+/// A prover who knows the witnesses of only the first k of n replicated statements: the public input
+/// fed to the transcript is that of the full statement, everything else is the k-fold prefix. Run
+/// through the library's own `prove`; the result must not verify against the full statement.
+struct PrefixCheat<P: SigmaProtocol> {
+    full:   ReplicateAdapter<P>,
+    prefix: ReplicateAdapter<P>,
+}
+
+impl<P: SigmaProtocol> SigmaProtocol for PrefixCheat<P> {
+    type CommitMessage = <ReplicateAdapter<P> as SigmaProtocol>::CommitMessage;
+    type ProtocolChallenge = <ReplicateAdapter<P> as SigmaProtocol>::ProtocolChallenge;
+    type ProverState = <ReplicateAdapter<P> as SigmaProtocol>::ProverState;
+    type Response = <ReplicateAdapter<P> as SigmaProtocol>::Response;
+    type SecretData = <ReplicateAdapter<P> as SigmaProtocol>::SecretData;
+
+    fn public(&self, ro: &mut impl TranscriptProtocol) { self.full.public(ro) }
+
+    fn compute_commit_message<R: rand::Rng>(&self, csprng: &mut R) -> Option<(Self::CommitMessage, Self::ProverState)> {
+        self.prefix.compute_commit_message(csprng)
+    }
+
+    fn get_challenge(&self, challenge: &Challenge) -> Self::ProtocolChallenge { self.prefix.get_challenge(challenge) }
+
+    fn compute_response(&self, secret: Self::SecretData, state: Self::ProverState, challenge: &Self::ProtocolChallenge) -> Option<Self::Response> {
+        self.prefix.compute_response(secret, state, challenge)
+    }
+
+    fn extract_commit_message(&self, challenge: &Self::ProtocolChallenge, response: &Self::Response) -> Option<Self::CommitMessage> {
+        self.prefix.extract_commit_message(challenge, response)
+    }
+}
+
+/// Partial-witness forgeries against a replicated statement of `n` components, for prefixes of
+/// 1, n/2 and n-1 components.
+fn rep_prefix_forgery<P: SigmaProtocol, T: Tx>(
+    proto: &str,
+    n: usize,
+    build: &impl Fn(usize) -> ReplicateAdapter<P>,
+    wit: &impl Fn(usize) -> <ReplicateAdapter<P> as SigmaProtocol>::SecretData,
+    cx: &CtxSpec,
+    ctx: &mut Ctx,
+) -> CheckResult {
+    use rand::SeedableRng;
+    if n < 2 {
+        return Ok(());
+    }
+    let mut rng = rand::rngs::StdRng::seed_from_u64(n as u64);
+    let t0: T = cx.build();
+    let full = build(n);
+    let mut ks = vec![1, n / 2, n - 1];
+    ks.dedup();
+    for k in ks {
+        let cheat = PrefixCheat { full: build(n), prefix: build(k) };
+        let Some(forged) = prove(&mut t0.fork(), &cheat, wit(k), &mut rng) else {
+            ctx.class("prefix-forgery:prover-none");
+            continue;
+        };
+        ctx.class("prefix-forgery");
+        if verify(&mut t0.fork(), &full, &forged) {
+            return Err(Violation::new(
+                "partial-witness",
+                format!("{proto} ({}): a proof made from the witnesses of the first {k} of {n} replicated statements (and {k} responses) verifies against the full statement", T::NAME),
+            )
+            .with_signature(format!("partial-witness:{proto}")));
+        }
+    }
+    Ok(())
+}
+
+fn rep_prefix_forgery_any<P: SigmaProtocol>(
+    legacy: bool,
+    proto: &str,
+    n: usize,
+    build: &impl Fn(usize) -> ReplicateAdapter<P>,
+    wit: &impl Fn(usize) -> <ReplicateAdapter<P> as SigmaProtocol>::SecretData,
+    cx: &CtxSpec,
+    ctx: &mut Ctx,
+) -> CheckResult {
+    if legacy {
+        rep_prefix_forgery::<P, RandomOracle>(proto, n, build, wit, cx, ctx)
+    } else {
+        rep_prefix_forgery::<P, TranscriptProtocolV1>(proto, n, build, wit, cx, ctx)
+    }
+}
+
 fn rep_dlog<C: Curve>(cn: &str, h: &Head, u: &mut Unstructured, ctx: &mut Ctx) -> CheckResult {
     let mut tr = Trace::new();
     tr.note(format!("Replicate<Dlog<{cn}>>"));
@@ -701,6 +786,15 @@ fn rep_dlog<C: Curve>(cn: &str, h: &Head, u: &mut Unstructured, ctx: &mut Ctx) -
         u,
         ctx,
         Budget::CHEAP,
+    )?;
+    rep_prefix_forgery_any(
+        h.legacy,
+        "Replicate<Dlog>",
+        n,
+        &|k| ReplicateAdapter { protocols: inst.v.iter().take(k).map(|a| a.build()).collect() },
+        &|k| inst.v.iter().take(k).map(|a| a.wit()).collect::<Vec<_>>(),
+        &h.cx,
+        ctx,
     )
 }
 
@@ -737,6 +831,15 @@ fn t_replicate(data: &[u8], ctx: &mut Ctx) -> CheckResult {
                 &mut u,
                 ctx,
                 Budget::CHEAP,
+            )?;
+            rep_prefix_forgery_any(
+                h.legacy,
+                "Replicate<ComEq>",
+                n,
+                &|k| ReplicateAdapter { protocols: inst.v.iter().take(k).map(|a| a.build()).collect() },
+                &|k| inst.v.iter().take(k).map(|a| a.wit()).collect::<Vec<_>>(),
+                &h.cx,
+                ctx,
             )
         }
         _ => {
@@ -760,6 +863,15 @@ fn t_replicate(data: &[u8], ctx: &mut Ctx) -> CheckResult {
                 &mut u,
                 ctx,
                 Budget::CHEAP,
+            )?;
+            rep_prefix_forgery_any(
+                h.legacy,
+                "Replicate<And<Dlog,ComMult>>",
+                n,
+                &|k| ReplicateAdapter { protocols: inst.v.iter().take(k).map(|a| AndAdapter { first: a.a.build(), second: a.b.build() }).collect() },
+                &|k| inst.v.iter().take(k).map(|a| (a.a.wit(), a.b.wit())).collect::<Vec<_>>(),
+                &h.cx,
+                ctx,
             )
         }
     }
